@@ -337,10 +337,27 @@ func (c *Ctx) rgSigs(pkgs []string) []rgSig {
 				}
 				sig.Guards[k] = append(append([]string{}, atoms...), "="+table)
 			}
-			if len(sig.Reads) == 0 && len(sig.Guards) == 0 {
-				continue
+			if len(sig.Reads) != 0 || len(sig.Guards) != 0 {
+				out = append(out, sig)
 			}
-			out = append(out, sig)
+			// function literals: units of the guard ratchet under a role key (units.go); their reads are part of
+			// the enclosing function's set
+			for _, u := range c.closureUnits(ir.FuncKey(fn), fn) {
+				usig := rgSig{Func: u.Key, File: file, Guards: map[string][]string{}}
+				for k, members := range events(c, u.Fn) {
+					if len(members) != 1 {
+						continue
+					}
+					atoms, table, ok := guardTruth(u.Fn, members[0].Block())
+					if !ok || len(atoms) == 0 {
+						continue
+					}
+					usig.Guards[k] = append(append([]string{}, atoms...), "="+table)
+				}
+				if len(usig.Guards) != 0 {
+					out = append(out, usig)
+				}
+			}
 		}
 	}
 	sort.Slice(out, func(i, j int) bool { return out[i].Func < out[j].Func })
@@ -465,13 +482,14 @@ func (c *Ctx) ruleGuardRatchet(rule string, pkgs []string, fileFilter func(strin
 		if !inPkgs || len(bs.Guards) == 0 || (fileFilter != nil && !fileFilter(bs.File)) {
 			continue
 		}
-		fn := c.P.Func(bs.Func)
+		fn := c.unitFunc(bs.Func)
 		cons := fmt.Sprintf("%d guarded steps", len(bs.Guards))
 		callsNewHelper := false
 		if fn != nil && fn.Blocks != nil {
-			rec, have := recordedCallees[bs.Func]
+			// (a function literal: what the enclosing named function calls, literals included)
+			rec, have := recordedCallees[unitOuterKey(bs.Func)]
 			set := map[string]bool{}
-			directCallees(c, fn, set, nil)
+			directCallees(c, ir.Outer(fn), set, nil)
 			for k := range set {
 				if strings.HasPrefix(k, "store ") || strings.HasPrefix(k, "mapstore ") || strings.HasPrefix(k, "mapdelete ") || strings.HasPrefix(k, "invoke ") {
 					continue
